@@ -328,10 +328,90 @@ fn check_permutations(cli: &Cli, r: &Report) {
     r.set_bounds(json!({"items": ITEMS.len(), "max_items_per_set": max_items, "permutations": "every permutation of the bench entry list x every permutation of the group list, 3 sort attributes"}));
 }
 
+// ---------------------------------------------------------------- C17, labels of an argument list (function level)
+//
+// Every list of <= 4 values over {1, 2, 3} (integers, rendered through ToString) and over {"a", "b"} (owned
+// strings): repeated and adjacent equal values included. The names a benchmark registers for its arguments must be
+// the renderings of the values, one per value and in their order, and each name must lead back to its own position
+// (the index the runner uses to fetch the argument), under every sort.
+
+static CUR_ARGS: std::sync::atomic::AtomicPtr<BenchArgs> = std::sync::atomic::AtomicPtr::new(std::ptr::null_mut());
+static CUR_INTS: std::sync::Mutex<Vec<i32>> = std::sync::Mutex::new(Vec::new());
+static CUR_STRS: std::sync::Mutex<Vec<String>> = std::sync::Mutex::new(Vec::new());
+
+fn cur_args() -> &'static BenchArgs {
+    unsafe { &*CUR_ARGS.load(std::sync::atomic::Ordering::SeqCst) }
+}
+
+fn check_arg_names(r: &Report) {
+    let mut lists: Vec<Vec<u8>> = vec![vec![]];
+    let mut level: Vec<Vec<u8>> = vec![vec![]];
+    for _ in 0..4 {
+        let mut next = Vec::new();
+        for l in &level {
+            for v in 1u8..=3 {
+                let mut l2 = l.clone();
+                l2.push(v);
+                next.push(l2);
+            }
+        }
+        lists.extend(next.iter().cloned());
+        level = next;
+    }
+    for (li, list) in lists.iter().enumerate() {
+        for strings in [false, true] {
+            if strings && list.iter().any(|v| *v == 3) {
+                continue; // strings over two letters only
+            }
+            CUR_ARGS.store(Box::leak(Box::new(BenchArgs::new())), std::sync::atomic::Ordering::SeqCst);
+            let renderings: Vec<String> = if strings {
+                let v: Vec<String> = list.iter().map(|v| if *v == 1 { "a".to_owned() } else { "b".to_owned() }).collect();
+                *CUR_STRS.lock().unwrap() = v.clone();
+                v
+            } else {
+                let v: Vec<i32> = list.iter().map(|v| *v as i32).collect();
+                *CUR_INTS.lock().unwrap() = v.clone();
+                v.iter().map(|x| x.to_string()).collect()
+            };
+            let entry: &'static BenchEntry = Box::leak(Box::new(BenchEntry {
+                meta: meta("f", "f", "c", 10),
+                bench: if strings {
+                    BenchEntryRunner::Args(|| cur_args().runner(|| CUR_STRS.lock().unwrap().clone(), |s| s.to_string(), |_, _| {}))
+                } else {
+                    BenchEntryRunner::Args(|| cur_args().runner(|| CUR_INTS.lock().unwrap().clone(), |s| s.to_string(), |_, _| {}))
+                },
+            }));
+            for sort in [None, Some((0u8, false)), Some((1, false)), Some((1, true)), Some((2, false)), Some((2, true))] {
+                let t = verif::tree(&[entry], &[], None, sort);
+                r.case(1);
+                let got: Vec<(String, usize)> = t[0].children[0].args.clone().unwrap_or_default();
+                // every shown (label, position) pair: the position's value renders as the label; the pairs are exactly
+                // the positions 0..n, each once
+                let mut positions: Vec<usize> = got.iter().map(|g| g.1).collect();
+                positions.sort_unstable();
+                let bad = got.iter().any(|(label, i)| renderings.get(*i) != Some(label)) || positions != (0..renderings.len()).collect::<Vec<_>>();
+                if bad {
+                    r.violation(Violation {
+                        sig: json!({"check":"arg-names","strings":strings,"repeated": renderings.windows(2).any(|w| w[0] == w[1])}),
+                        text: format!("a benchmark with args {renderings:?} ({}) sorted by {sort:?} registers the (label, position) pairs {got:?}: every value must have one label, its own rendering, leading back to its own position", if strings {"owned strings"} else {"integers"}),
+                        case: json!({"kind":"argnames","list":list,"strings":strings}),
+                    });
+                }
+                r.sample((li * 12) as u64, || json!({"args": renderings, "sort": format!("{sort:?}"), "pairs": got.iter().map(|g| json!([g.0, g.1])).collect::<Vec<_>>()}));
+            }
+        }
+    }
+    r.set_bounds(json!({"lists": "every list of <= 4 values over {1,2,3} as integers, over {a,b} as owned strings (repeats and adjacent equal values included)", "sorts": 6}));
+}
+
 fn main() {
     let cli = Cli::parse();
     mc_seq::quiet_panics();
     let r = Report::new("c13", &cli);
+    if cli.sub.first().map(|s| s.as_str()) == Some("argnames") || cli.case.as_ref().map_or(false, |c| c["kind"] == "argnames") {
+        check_arg_names(&r);
+        r.emit();
+    }
     if cli.sub.first().map(|s| s.as_str()) == Some("perm") {
         check_permutations(&cli, &r);
         r.emit();
